@@ -36,7 +36,8 @@ def run_job(job):
     rig = VirtRig(cfg, job.get('schedule') or [], shape_seed=job.get('shape_seed', 0), beh=_beh(job.get('beh')),
                   int_lines=job.get('int_lines'), count_lines=job.get('count_lines', False), storage=storage,
                   prior=job.get('prior'), progress=job.get('progress', False))
-    rig.ctx_fail = bool(job.get('ctx_fail'))
+    rig.ctx_fail = bool(job.get('ctx_fail') or job.get('prior_abort'))
+    rig.prior_abort = job.get('prior_abort')
     try:
         trace = rig.run()
     finally:
@@ -101,10 +102,36 @@ def _beh(b):
     return {int(k): v for k, v in b.items()}
 
 
+JOB_HARD_LIMIT_S = 420       # a single job (a sweep: all its runs) that cannot be brought down by the rig's own watchdogs
+
+
+def _hard_limit(state):
+    """Watchdog thread: if one job blocks this process beyond any reasonable time, report it as a rig failure and leave
+    (the harness turns that into a machinery error instead of waiting for its own, much longer, time limit)."""
+    import threading
+    import time
+
+    def watch():
+        while True:
+            time.sleep(5)
+            job, since, limit = state.get('job'), state.get('since'), state.get('limit', JOB_HARD_LIMIT_S)
+            if job is not None and time.time() - since > limit:
+                try:
+                    with open(state['out'], 'a') as f:
+                        f.write(json.dumps({'tid': job, 'error': f'rig job {job} exceeded the hard limit of {limit}s'}) + '\n')
+                finally:
+                    os._exit(3)
+    threading.Thread(target=watch, daemon=True).start()
+
+
 def main():
+    import time
     jobs = json.load(open(sys.argv[1]))
+    state = {'out': sys.argv[2]}
+    _hard_limit(state)
     with open(sys.argv[2], 'w') as out:
         for job in jobs:
+            state.update(job=job['id'], since=time.time(), limit=JOB_HARD_LIMIT_S * (6 if job.get('sweep') else 1))
             try:
                 res = run_sweep(job) if job.get('sweep') else [run_job(job)]
             except BaseException as ex:   # noqa
